@@ -89,6 +89,15 @@ func checkWaitGroupFanout(c *core.Ctx, r *core.Report, rule string, g *ssa.Go, c
 	wg := wgOf(done.Common().Args[0])
 	if _, isDefer := done.(*ssa.Defer); isDefer {
 		r.Check(done.Block() == body.Blocks[0], rule+".R2", cons+":done", c.Pos(done.Pos()), "Done is deferred in the entry block of the goroutine body, so it runs on every exit including panics")
+		// deferred calls run last-in-first-out: anything deferred before Done runs after the parent may have been released
+		for _, in := range done.Block().Instrs {
+			if in == ssa.Instruction(done) {
+				break
+			}
+			if d, isD := in.(*ssa.Defer); isD {
+				r.Fail(rule+".R2", cons+":done-is-last", c.Pos(d.Pos()), "a call deferred before Done runs after Done: the parent's Wait can return while this goroutine is still working")
+			}
+		}
 	} else {
 		// plain call: must post-dominate every payload call; checked by caller through DoneAfter
 		pdAll := true
@@ -117,6 +126,22 @@ func checkWaitGroupFanout(c *core.Ctx, r *core.Report, rule string, g *ssa.Go, c
 	if loop == nil {
 		r.Undecided(rule+".R1", cons+":add", pos, "go statement is not inside a loop")
 		return body, false
+	}
+	// a variable that the loop keeps writing must reach the goroutine as an argument, not by capture
+	// (go.mod declares a Go version with shared loop variables; SSA shows a per-iteration variable as allocated inside the loop)
+	if mc, isMC := g.Call.Value.(*ssa.MakeClosure); isMC {
+		for _, b := range mc.Bindings {
+			al, isAl := b.(*ssa.Alloc)
+			if !isAl || loop.Blocks[al.Block()] {
+				continue
+			}
+			for _, rf := range *al.Referrers() {
+				if st, isSt := rf.(*ssa.Store); isSt && loop.Blocks[st.Block()] {
+					r.Fail(rule+".R2", cons+":captured:"+al.Comment, c.Pos(st.Pos()), "the goroutine captures a variable that the spawning loop writes on every iteration: it reads it while the loop changes it")
+					break
+				}
+			}
+		}
 	}
 	rl := core.RangeLoopOf(parent, g.Block())
 	okAdd := false
